@@ -85,3 +85,85 @@ def evaluate(records, outdir, timeout=1200):
         raise ToolError(f"trace validation failed (exit {p.returncode}, {len(verdicts)}/{len(records)} verdicts):\n"
                         + "\n".join(l for l in p.stdout.splitlines() if not l.startswith(prefix))[-3000:])
     return verdicts, {"records": len(records), "wall_s": round(time.time() - t, 1), "kf_ids": kfs}
+
+
+# ---------------------------------------------------------------------------------------------
+# step-level trace validation of the resolution loop (LoopTrace.tla)
+
+def loop_events(case, obs):
+    """the hook's event log of one run -> the records LoopTrace.tla consumes"""
+    out = [{"e": "input", "input": case["input"]}]
+    for mi, ok in obs.get("adds", []):
+        out.append({"e": "add_module", "mi": mi, "ok": bool(ok)})
+    if obs.get("stage") in ("add", "parse"):
+        return out
+    evs = [e for e in obs.get("events", [])]
+    # drop the insertions of add_module (before the first pass)
+    first = next((i for i, e in enumerate(evs) if e["e"] == "pass_begin"), len(evs))
+    evs = evs[first:]
+    i = 0
+    while i < len(evs):
+        e = evs[i]
+        if e["e"] == "pass_begin":
+            out.append({"e": "pass_begin", "todo": e["todo"]})
+            i += 1
+        elif e["e"] == "pass_end":
+            out.append({"e": "pass_end"})
+            i += 1
+        elif e["e"] == "attempt_begin":
+            ins = []
+            j = i + 1
+            while j < len(evs) and evs[j]["e"] == "item_added":
+                ins.append(evs[j]["p"])
+                j += 1
+            if j < len(evs) and evs[j]["e"] == "attempt_end" and evs[j]["p"] == e["p"]:
+                out.append({"e": "attempt", "p": e["p"], "r": "resolved" if evs[j]["resolved"] else "defer", "ins": ins})
+                i = j + 1
+            elif j >= len(evs):
+                out.append({"e": "attempt", "p": e["p"], "r": "fail", "ins": ins})
+                i = j
+            else:
+                out.append({"e": "attempt", "p": e["p"], "r": "skip", "ins": ins})
+                i = j
+        else:
+            i += 1
+    out.append({"e": "build_end", "ok": bool(obs.get("accepted")), "class": obs.get("class") or ""})
+    if obs.get("accepted"):
+        for ent in obs.get("reg", []):
+            if ent["st"] == "R":
+                out.append({"e": "item", "p": ent["path"], "size": ent["res"]["size"], "align": ent["res"]["align"]})
+    return out
+
+
+def validate_loop(runs, outdir, timeout=1200):
+    """runs: list of (case, obs).  Returns (accepted: bool, n_events, detail)"""
+    os.makedirs(outdir, exist_ok=True)
+    path = os.path.join(outdir, "loop.ndjson")
+    n = 0
+    index = []
+    with open(path, "w") as f:
+        for case, obs in runs:
+            for ev in loop_events(case, obs):
+                f.write(json.dumps(ev) + "\n")
+                n += 1
+                index.append(case["id"])
+    cmd = ["timeout", str(timeout), "java", "-XX:+UseParallelGC", "-Xss1g", "-Xmx8g",
+           "-Dtlc2.tool.queue.IStateQueue=StateDeque",
+           "-cp", "/opt/veriftools/tla/tla2tools.jar:/opt/veriftools/tla/CommunityModules-deps.jar",
+           "tlc2.TLC", "-workers", "1", "-metadir", os.path.join(outdir, "meta"), "-cleanup", "-noGenerateSpecTE",
+           "-config", os.path.join(SPEC, "LoopTrace.cfg"), os.path.join(SPEC, "LoopTrace.tla")]
+    t = time.time()
+    p = subprocess.run(cmd, stdout=subprocess.PIPE, stderr=subprocess.STDOUT, text=True, cwd=outdir, env=dict(os.environ, TRACE=path))
+    m = re.search(r'<<"TRACE-REJECTED-AT", (\d+), "([^"]*)">>', p.stdout)
+    info = {"events": n, "runs": len(runs), "wall_s": round(time.time() - t, 1)}
+    if m:
+        at = int(m.group(1))
+        info.update({"rejected_at": at, "event": m.group(2), "case": index[at - 1] if at - 1 < len(index) else None})
+        with open(path) as f:
+            for k, line in enumerate(f, 1):
+                if k == at:
+                    info["record"] = json.loads(line)
+        return False, info
+    if p.returncode != 0:
+        raise ToolError("LoopTrace failed:\n" + "\n".join(l for l in p.stdout.splitlines() if "Parsing" not in l and "Semantic" not in l)[-3000:])
+    return True, info
